@@ -171,12 +171,25 @@ func (handler) HandleOperation(ctx context.Context, req kmip.OperationPayload) (
 	if sc.yield {
 		runtime.Gosched()
 	}
+	// what a successful handler answers with is its business - here, for two items in three, the payload of a Locate that found no, one
+	// or two objects: the placeholder is what the handlers store, whatever their answers look like
+	answer := func() kmip.OperationPayload {
+		{
+			switch (sc.uid + i) % 3 {
+			case 1:
+				return &payloads.LocateResponsePayload{UniqueIdentifier: []string{"found-1", "found-2"}[:(sc.uid/3+i)%3]}
+			case 2:
+				return &payloads.LocateResponsePayload{UniqueIdentifier: []string{"found-only"}}
+			}
+		}
+		return &payloads.GetResponsePayload{UniqueIdentifier: pl.UniqueIdentifier}
+	}
 	switch sc.items[i-1].Out {
 	case "success":
 		if sc.nest != nil && i == sc.nestAt {
 			sc.nest(ctx)
 		}
-		return &payloads.GetResponsePayload{UniqueIdentifier: pl.UniqueIdentifier}, nil
+		return answer(), nil
 	case "successSetsId":
 		kmipserver.SetIdPlaceholder(ctx, fmt.Sprintf("r%d.i%d", sc.uid, i))
 		if sc.yield {
@@ -185,7 +198,7 @@ func (handler) HandleOperation(ctx context.Context, req kmip.OperationPayload) (
 		if sc.nest != nil && i == sc.nestAt {
 			sc.nest(ctx)
 		}
-		return &payloads.GetResponsePayload{UniqueIdentifier: pl.UniqueIdentifier}, nil
+		return answer(), nil
 	case "retriedSuccess":
 		sc.mu.Lock()
 		sc.attempts[i]++
